@@ -710,3 +710,101 @@ func init() {
 	vfEnum("C07/membership-product", rule+" Product: 16 versions x 7 new memberships x self/other x 6 sender memberships x 6 target memberships x 7 join rules x sender level {<,=,>} threshold x target level {<,=,>} sender x restricted-join authoriser states; size = sampling stride (1 = complete).", 12, 1, 16, c07EnumMember, c07Check)
 	vfEnum("C07/generic-product", rule+" Product: 16 versions x 12 event kinds x 6 sender memberships x level {<,=,>} requirement x m.federate {absent,true,false} x sender server x power-levels present/absent, plus the create-event product; size = sampling stride.", 4, 1, 8, c07EnumGeneric, c07Check)
 }
+
+// ---------------------------------------------------------------------------------------------
+// Third-party-invite product: version x target membership x sender relation to the
+// third_party_invite event x key placement x signature validity x mxid/token faults x sender joined.
+
+func c07EnumTPI(size, shard, nshards int, emit func(c07Case)) {
+	idx := 0
+	for _, version := range vfVersions {
+		for _, tMem := range c07PrevMems {
+			for _, tpiSender := range []string{"same", "other", "absent-event"} {
+				for _, keys := range []string{"public_key", "public_keys", "both", "other-key-only", "wrong-length-key"} {
+					for _, sig := range []string{"valid", "other-key", "garbage", "none"} {
+						for _, fault := range []string{"", "mxid-mismatch", "no-token", "no-signed", "no-mxid"} {
+							for _, sMem := range []string{"join", "leave"} {
+								idx++
+								if idx%nshards != shard || !c07Pick(idx, size) {
+									continue
+								}
+								emit(c07TPICase(version, tMem, tpiSender, keys, sig, fault, sMem))
+							}
+						}
+					}
+				}
+			}
+		}
+	}
+}
+
+func c07TPICase(version, tMem, tpiSender, keys, sig, fault, sMem string) c07Case {
+	sender, target := c07Alice, c07Bob
+	users := map[string]int64{c07Alice: 0}
+	if !vtraits[version].Creators {
+		users[c07Creator] = 100
+	}
+	r := c07Room{Version: version, HasPL: true, JoinRule: "invite", Members: map[string]string{c07Creator: "join", c07Alice: sMem, c07Bob: tMem}}
+	// invite level 50 > alice's 0: a plain invite would be refused, so acceptance can only come from the third-party path
+	r.PL = c07PLContent(users, map[string]int64{"invite": 50}, nil, nil)
+	signKey := "idkey1"
+	switch sig {
+	case "other-key":
+		signKey = "idkey3"
+	}
+	mxid := target
+	if fault == "mxid-mismatch" {
+		mxid = c07Carol
+	}
+	signed := c07Signed(mxid, "tok", signKey, false)
+	switch sig {
+	case "garbage":
+		signed = signed.with("signatures", jobj("id.example", jobj("ed25519:0", jstr("AAAA"))))
+	case "none":
+		signed = signed.without("signatures")
+	}
+	switch fault {
+	case "no-token":
+		signed = signed.without("token")
+	case "no-mxid":
+		signed = signed.without("mxid")
+	}
+	tpi := jobj("display_name", jstr("x"), "signed", signed)
+	if fault == "no-signed" {
+		tpi = jobj("display_name", jstr("x"))
+	}
+	if tpiSender != "absent-event" {
+		var tc jv
+		one := jobj("public_key", jstr(c07PubB64("idkey1")), "key_validity_url", jstr("https://id.example/v"))
+		switch keys {
+		case "public_key":
+			tc = jobj("display_name", jstr("x"), "key_validity_url", jstr("https://id.example/v"), "public_key", jstr(c07PubB64("idkey1")))
+		case "public_keys":
+			tc = jobj("display_name", jstr("x"), "public_keys", jarr(jobj("public_key", jstr(c07PubB64("idkey9"))), one))
+		case "both":
+			tc = jobj("display_name", jstr("x"), "public_key", jstr(c07PubB64("idkey9")), "public_keys", jarr(one))
+		case "other-key-only":
+			tc = jobj("display_name", jstr("x"), "public_key", jstr(c07PubB64("idkey8")), "public_keys", jarr(jobj("public_key", jstr(c07PubB64("idkey9")))))
+		default: // a key of the wrong length next to nothing usable
+			tc = jobj("display_name", jstr("x"), "public_key", jstr("AAAA"), "public_keys", jarr(jobj("public_key", jstr("AAAAAAAA"))))
+		}
+		r.TPI = &tc
+		r.TPISender = sender
+		if tpiSender == "other" {
+			r.TPISender = c07Creator
+		}
+	}
+	b := c07Build(r)
+	prev := "$p:a.example"
+	if vtraits[version].Format == 2 {
+		prev = "$" + strings.Repeat("P", 43)
+	}
+	return c07Finish(version, b, raEv{Type: "m.room.member", Sender: sender, StateKey: raSK(target),
+		Content: jobj("membership", jstr("invite"), "third_party_invite", tpi), Prev: []string{prev}})
+}
+
+func init() {
+	vfEnum("C07/third-party-invite-product",
+		"bounded-exhaustive product: 16 versions x 6 target memberships x third_party_invite event by the same sender / another sender / absent x key placement (public_key, public_keys, both, unrelated keys, wrong-length keys) x signature (valid, other key, garbage, none) x signed-block faults (mxid mismatch, no token, no signed, no mxid) x sender joined or not; the sender lacks the invite level so only the third-party path can accept; size = sampling stride; non-trivial as for C07/random",
+		4, 1, 8, c07EnumTPI, c07Check)
+}
